@@ -37,17 +37,12 @@ from typing import Optional
 
 from vlib.xferrig import Rig
 
-_frozen = False
-
-
-def freeze_gc_once():
+def park_heap():
     """Full collections are run between the steps of a case; park everything that exists now (modules, the
-    interpreter's own structures) in the permanent generation so that each of them only looks at the case."""
-    global _frozen
-    if not _frozen:
-        gc.collect()
-        gc.freeze()
-        _frozen = True
+    interpreter's own structures, the results of earlier cases) in the permanent generation so that each of them
+    only looks at what the running case created."""
+    gc.collect()
+    gc.freeze()
 
 
 class _ServerConn:
@@ -175,7 +170,7 @@ class TrackedRig(Rig):
         self.log = TimedLog(loop)
         from aioslsk.events import MessageReceivedEvent
         from aioslsk.user.manager import UserManager
-        freeze_gc_once()
+        park_heap()
         self.server = SimServer(self, reply_delay)
         # the stub network gains the two coroutines the tracking code uses
         self.net.send_server_messages = self.server.send_server_messages
